@@ -139,6 +139,12 @@ func (r *Run) oracleWrites(w *World, res *OpResult, kind string) {
 			if a.Err == "" && !listed[a.Resolved] {
 				r.Violate("wrote-unlisted", "Repair wrote %q but did not list it in RepairedPaths %v", w.Files[fi].Name, res.Repaired)
 			}
+			// intact protected files belong to "every other file": Repair
+			// has no business writing them at all (an interrupted rewrite
+			// would destroy a healthy file)
+			if prev, ok := res.Before[a.Resolved]; ok && string(prev) == string(w.Files[fi].Data) {
+				r.Violate("rewrote-intact-file", "Repair wrote %q although it was intact before the call", w.Files[fi].Name)
+			}
 		}
 		if a.Err == "" || a.Kept > 0 || a.Fault != 0 {
 			written[a.Resolved] = true
